@@ -1,0 +1,88 @@
+//go:build verif
+
+package matcher
+
+// Hooks for the runtime monitors under /verif (build tag verif). Matching is
+// single-threaded per call; the monitors drive one match at a time.
+
+// VerifNoProgress is raised when a repetition is about to repeat an iteration
+// that consumed nothing and did not fail: matchers are pure functions of the
+// remaining input, so the next iteration is identical (non-termination).
+type VerifNoProgress struct{}
+
+// VerifLeftRecursion is raised when a rule is re-entered at the same input position.
+type VerifLeftRecursion struct{ Name string }
+
+// VerifBudgetExceeded is raised when the step budget is exhausted.
+type VerifBudgetExceeded struct{ Steps int64 }
+
+type verifFrame struct {
+	v    *Var
+	left int
+}
+
+var (
+	verifOn          bool
+	verifSteps       int64
+	verifBudget      int64
+	verifStack       []verifFrame
+	VerifRepeatIters int64
+	VerifVarEnters   int64
+)
+
+// VerifReset arms (budget>0) or disarms (budget==0) the monitors and clears their state.
+func VerifReset(budget int64) {
+	verifOn = budget > 0
+	verifSteps, verifBudget = 0, budget
+	verifStack = verifStack[:0]
+	VerifRepeatIters, VerifVarEnters = 0, 0
+}
+
+func VerifSteps() int64 { return verifSteps }
+
+func verifStep() {
+	if !verifOn {
+		return
+	}
+	verifSteps++
+	if verifSteps > verifBudget {
+		verifOn = false
+		panic(VerifBudgetExceeded{verifSteps})
+	}
+}
+
+func verifRepeatIter(n1 int, err error) {
+	if !verifOn {
+		return
+	}
+	VerifRepeatIters++
+	if n1 == 0 {
+		verifOn = false
+		panic(VerifNoProgress{})
+	}
+}
+
+func verifVarEnter(v *Var, left int) bool {
+	if !verifOn {
+		return false
+	}
+	VerifVarEnters++
+	for i := len(verifStack) - 1; i >= 0; i-- {
+		f := verifStack[i]
+		if f.left != left {
+			break // frames below were entered with more input left
+		}
+		if f.v == v {
+			verifOn = false
+			panic(VerifLeftRecursion{v.Name})
+		}
+	}
+	verifStack = append(verifStack, verifFrame{v, left})
+	return true
+}
+
+func verifVarExit(entered bool) {
+	if entered && verifOn && len(verifStack) > 0 {
+		verifStack = verifStack[:len(verifStack)-1]
+	}
+}
